@@ -13,7 +13,7 @@
                         (`e.unescape().unwrap()`)
   * `textEvent`       = the `Event::Text` (if any) the reader produces for the raw bytes between
                         `>` and the next `<`, under `trim_text(trim)`
-  * `readText`        = what the umya loops `Event::Text(e) => s = e.unescape().unwrap()` leave in
+  * `readText`        = what the umya loops `Event::Text(e) => s = unescape_text(&e)` leave in
                         `s` (initially empty) for an element with that raw content
 
   The escapable bytes are ASCII, so working on scalar values instead of UTF-8 bytes changes nothing.
@@ -128,19 +128,30 @@ def textEvent (trim : Bool) (raw : Text) : Option Text :=
   else
     (if raw = [] then none else some raw)
 
+/-- `reader/driver.rs::unescape_text`, first half: a literal CR LF or CR in character data is a
+    line break and is passed on as LF (XML 1.0 section 2.11); done on the raw text, so `&#13;`
+    is not touched -/
+def normEol : Text → Text
+  | [] => []
+  | '\r' :: '\n' :: cs => '\n' :: normEol cs
+  | c :: cs => (if c = '\r' then '\n' else c) :: normEol cs
+
+/-- `reader/driver.rs::unescape_text`: line ends, then `quick_xml::escape::unescape` -/
+def unescapeText (t : Text) : Option Text := unescape (normEol t)
+
 /-- content of a string variable that starts empty and is overwritten by
-    `Event::Text(e) => s = e.unescape().unwrap()`; `none` = the `unwrap` panics -/
+    `Event::Text(e) => s = unescape_text(&e)`; `none` = the `unwrap` panics -/
 def readText (trim : Bool) (raw : Text) : Option Text :=
   match textEvent trim raw with
   | none => some []
-  | some t => unescape t
+  | some t => unescapeText t
 
 /-- the same when the variable already holds `prev` (the cell reader keeps ONE string variable for
     `<v>` and `<is><t>`) -/
 def readTextFrom (prev : Text) (trim : Bool) (raw : Text) : Option Text :=
   match textEvent trim raw with
   | none => some prev
-  | some t => unescape t
+  | some t => unescapeText t
 
 /-! ## `char::is_whitespace` (Unicode `White_Space`), used by `Text::write_to` for `xml:space` -/
 
